@@ -84,8 +84,9 @@ def upConv (r : Nat) (z : α) (p0 : π) : Elem (α × π) (UpWord α π) (UpStat
 
 /-! ### StrideConverter, up-converting case
 
-  `source.param` is a register loaded from `sink.param` on *every* clock edge (`self.sync +=
-  source.param.eq(sink.param)`), not only when a sub-word is loaded.  Modelled as it is. -/
+  A `Converter` (an `_UpConverter` without params) plus the separately registered `source.param`, loaded
+  together with a sub-word: `self.sync += If(sink.valid & sink.ready, source.param.eq(sink.param))`
+  (fix 3f0170f; before it the register was reloaded on every clock edge). -/
 
 def strideUp (r : Nat) (z : α) (p0 : π) : Elem (α × π) (UpWord α π) (UpState α Unit × π) where
   init := ((upConv r z ()).init, p0)
@@ -95,7 +96,8 @@ def strideUp (r : Nat) (z : α) (p0 : π) : Elem (α × π) (UpWord α π) (UpSt
                    first := o.first, last := o.last })
   bwd s _ _ rdy := !s.1.strobe || rdy
   next s v t rdy :=
-    ((upConv r z ()).next s.1 v { data := (t.data.1, ()), first := t.first, last := t.last } rdy, t.data.2)
+    ((upConv r z ()).next s.1 v { data := (t.data.1, ()), first := t.first, last := t.last } rdy,
+     if v && (!s.1.strobe || rdy) then t.data.2 else s.2)
 
 /-! ### _DownConverter / Unpack -/
 
